@@ -1,4 +1,3 @@
 package main
 
-func genWiring()    {}
-func genStages()    {}
+func genStages() {}
